@@ -537,6 +537,18 @@ func c10ForkModelCase(c *Ctx, rt *core.Runtime, cs *fmCase, static, runtime stri
 		mismatch("MakeForkIds", got, static)
 		return
 	}
+	// instance of theorem forks_bijection on the REAL list: when the static list is fully
+	// determined (no `u`, no `e`), it must be a duplicate-free enumeration of exactly the
+	// combinations the sources define (Lean allForks)
+	if !strings.Contains(static, "u") && !strings.Contains(static, "e") && static != "." {
+		if rep := c.Drv.AskBatch([][]string{{"C10.forkbij", cs.Roots, cs.Table}})[0]; rep == "true" {
+			r.hist("fork-model-outcome:bijection instance holds")
+		} else {
+			r.violate(Violation{Kind: "correspondence", Key: "C10:forkorder:bijection:" + cs.Shape,
+				What:  "the fully determined fork list is not a duplicate-free enumeration of the combinations the sources define",
+				Input: input, Impl: static, Model: rep, Broken: "theorem Props.C10.forks_bijection (instance)"})
+		}
+	}
 	if rt == nil {
 		return
 	}
@@ -569,12 +581,12 @@ func c10ForkModelCase(c *Ctx, rt *core.Runtime, cs *fmCase, static, runtime stri
 		return
 	}
 	r.hist("fork-model-outcome:run-time compared")
-	got, gap := fmAfterEmpty(fmNorm(ef))
-	want, _ := fmAfterEmpty(runtime)
-	if gap {
-		r.hist("fork-model-outcome:run-time compared modulo `undetermined after empty`")
+	// exact comparison: the model's run-time phase (satRt) leaves the parts after a part that
+	// turned out empty undetermined, as the real code does for a disabled fork
+	if _, gap := fmAfterEmpty(fmNorm(ef)); gap {
+		r.hist("fork-model-outcome:run-time case with an undetermined part after an empty one")
 	}
-	if got != want {
-		mismatch("Node.expandForks (run time)", fmNorm(ef), runtime)
+	if got := fmNorm(ef); got != runtime {
+		mismatch("Node.expandForks (run time)", got, runtime)
 	}
 }
